@@ -17,7 +17,12 @@ for d in sorted(glob.glob(ROOT + "/C*")):
         continue
     patch = os.path.join(d, "patch.diff")
     if subprocess.run(["git", "-C", REPO, "apply", "--check", patch], capture_output=True).returncode != 0:
-        print(name, "does not apply (superseded)"); continue
+        # a later fix: commit touched the same lines: the change as ported to the current tree
+        ports = sorted(f for f in os.listdir(d) if f.startswith("patch_ported_to_"))
+        ok = [f for f in ports if subprocess.run(["git", "-C", REPO, "apply", "--check", os.path.join(d, f)], capture_output=True).returncode == 0]
+        if not ok:
+            print(name, "does not apply (superseded)"); continue
+        patch = os.path.join(d, ok[-1])
     pid = name.split("-")[0]
     ids = [pid] + also.get(name, [])
     p = subprocess.run([sys.executable, VROOT + "/tools/try_mutant.py", patch] + ids, capture_output=True, text=True)
